@@ -168,6 +168,18 @@ Definition s_boolagg (a : args) : list (list Z) :=
   let rows := denote (mk_arr (fldb 1 a) (arg 1 a) (arg 2 a)) in
   if fld 0 a =? 0 then oz (spec_bool_and rows) else oz (spec_bool_or rows).
 
+(* reeagg: [signed; bits; aggop; hasnulls (values child); run-end bits; slice off; slice len;
+            (layout: values child offset; run-ends child offset)] [run ends] [values] [validity]
+   aggop: 0 sum_array 1 sum_array_checked 2 min_array 3 max_array over the slice (off, len) of the
+   run array; the spec is the column spec on the logical expansion of the slice *)
+Definition s_reeagg (a : args) : list (list Z) :=
+  let s := fldb 0 a in let H := half_of_bits (fld 1 a) in let op := fld 2 a in
+  let rows := ree_expand (arg 1 a) (denote (mk_arr (fldb 3 a) (arg 2 a) (arg 3 a))) (fld 5 a) (Z.to_nat (fld 6 a)) in
+  if op =? 0 then oz (spec_sum s H rows)
+  else if op =? 1 then match spec_sum_checked s H rows with inl o => oz o | inr k => err_out k end
+  else if op =? 2 then oz (spec_min rows)
+  else oz (spec_max rows).
+
 Definition ops_C12 : list (string * opfun) :=
   [ ("c12.arith", d_arith); ("c12.arith.spec", s_arith);
     ("c12.neg", d_neg); ("c12.neg.spec", s_neg);
@@ -175,4 +187,5 @@ Definition ops_C12 : list (string * opfun) :=
     ("c12.decimal", d_decimal); ("c12.decimal.spec", s_decimal);
     ("c12.bool", d_bool); ("c12.bool.spec", s_bool);
     ("c12.agg", d_agg); ("c12.agg.spec", s_agg);
-    ("c12.boolagg.spec", s_boolagg) ].
+    ("c12.boolagg.spec", s_boolagg);
+    ("c12.reeagg.spec", s_reeagg) ].
